@@ -1,5 +1,6 @@
 import ArcaModel.Lemmas.NoPanicRun
 import ArcaModel.Lemmas.Termination
+import ArcaModel.Lemmas.TerminatesRec
 import ArcaModel.Model.WFCheck
 /-
   C04  Schema operations are total: bad data yields an error, never a panic or hang.
@@ -53,3 +54,159 @@ end Arca
 
 #print axioms Arca.C04_no_panic
 #print axioms Arca.C04_fuel_mono
+
+/-! ## C04, second half: schema operations never hang
+
+`run` reports a hang (or a recursion deeper than the budget) as the outcome `fuel`. Unconditional
+termination is false (`C04_selfLoop_hangs` below), so it is proved under two conditions on the
+schema, each with an explicit budget and an executable check (`finB`, `guardedB`):
+
+* `C04_terminates_acyclic`: a schema whose unfolding through its references is finite
+  (`FinDepth env t d`) terminates on EVERY Go value, within `2 d + depth v + 1`;
+* `C04_terminates_guarded`: a schema WITH reference cycles terminates on every Go value when no
+  cycle consists only of steps that hand on the same value (`Guard`, `Hered`), within
+  `(depth v + 1) (2 G + 2) + D`.
+
+Together with `C04_no_panic` and `C04_fuel_mono` each gives totality: one outcome, a value or an
+error, for all sufficient budgets (`C04_total_acyclic`, `C04_total_guarded`). -/
+namespace Arca
+
+/-- an outcome that is neither a panic nor a hang is a value or an error -/
+theorem Out.ok_or_err {α} {o : Out α} (hp : o ≠ .panic) (hf : o ≠ .fuel) :
+    (∃ r, o = .ok r) ∨ (∃ e, o = .err e) := by
+  cases o with
+  | ok r => exact Or.inl ⟨r, rfl⟩
+  | err e => exact Or.inr ⟨e, rfl⟩
+  | panic => exact absurd rfl hp
+  | fuel => exact absurd rfl hf
+
+/-- Acyclic schemas terminate on every input: if the schema `t` unfolds - following references
+    through `env`, and counting the depth of the defaults it declares - to depth `d`, then no
+    operation, on ANY Go value `v`, with any externals, exhausts a budget of
+    `2 * d + V.depth v + 1`. -/
+theorem C04_terminates_acyclic (x : Ext) (env : Env) (t : Ty) (d : Nat) (hfin : FinDepth env t d)
+    (op : Op) (v : V) (n : Nat) (hn : 2 * d + V.depth v + 1 ≤ n) : run x n op env t v ≠ .fuel :=
+  fin_halts x hfin n op v hn
+
+/-- On an acyclic schema every operation has one outcome, reached by every budget from
+    `2 * d + V.depth v + 1` on. -/
+theorem C04_acyclic_result (x : Ext) (env : Env) (t : Ty) (d : Nat) (hfin : FinDepth env t d)
+    (op : Op) (v : V) :
+    ∃ o : Out V, o ≠ .fuel ∧ ∀ n, 2 * d + V.depth v + 1 ≤ n → run x n op env t v = o := by
+  refine ⟨run x (2 * d + V.depth v + 1) op env t v, fin_halts x hfin _ op v (Nat.le_refl _), fun n hn => ?_⟩
+  obtain ⟨k, rfl⟩ : ∃ k, n = 2 * d + V.depth v + 1 + k := ⟨n - (2 * d + V.depth v + 1), by omega⟩
+  exact run_mono x _ k op env t v _ rfl (fin_halts x hfin _ op v (Nat.le_refl _))
+
+/-- Totality on well-formed acyclic schemas: every operation on every Go value yields a value or
+    an error - never a panic, never a hang - and the same one for every sufficient budget. -/
+theorem C04_total_acyclic (x : Ext) (env : Env) (t : Ty) (d : Nat) (henv : EnvWF env) (hwf : WF env t)
+    (hfin : FinDepth env t d) (op : Op) (v : V) :
+    ∃ o : Out V, ((∃ r, o = .ok r) ∨ (∃ e, o = .err e)) ∧
+      ∀ n, 2 * d + V.depth v + 1 ≤ n → run x n op env t v = o := by
+  obtain ⟨o, hne, ho⟩ := C04_acyclic_result x env t d hfin op v
+  refine ⟨o, Out.ok_or_err ?_ hne, ho⟩
+  rw [← ho _ (Nat.le_refl _)]
+  exact C04_no_panic x _ op env t v henv hwf
+
+/-- Recursive schemas terminate on every finite input, provided every turn of a reference cycle
+    consumes a level of the value. Precisely: the steps that hand the SAME value to a sub-schema
+    are references, scope roots, one-of members (which receive a map) and the single enabled
+    property of an object that is given a non-map value; `Guard false env t G` says at most `G` of
+    them follow each other from `t`, `Hered G D env t` (`EnvHered` for the enclosing scope) says the
+    same of every sub-schema that receives a sub-value, inside all scopes, and that a property
+    with a default has an acyclic type on which the default needs at most `D`. Then no operation
+    on ANY Go value `v` exhausts a budget of `(V.depth v + 1) * (2 * G + 2) + D`. -/
+theorem C04_terminates_guarded (x : Ext) (G D : Nat) (env : Env) (t : Ty) (henv : EnvHered G D env)
+    (hh : Hered G D env t) (hg : Guard false env t G) (op : Op) (v : V) (n : Nat)
+    (hn : (V.depth v + 1) * (2 * G + 2) + D ≤ n) : run x n op env t v ≠ .fuel :=
+  guarded_halts x henv hh hg n op v hn
+
+/-- Totality on well-formed guarded schemas: a value or an error, the same one for every
+    sufficient budget. -/
+theorem C04_total_guarded (x : Ext) (G D : Nat) (env : Env) (t : Ty) (henvwf : EnvWF env) (hwf : WF env t)
+    (henv : EnvHered G D env) (hh : Hered G D env t) (hg : Guard false env t G) (op : Op) (v : V) :
+    ∃ o : Out V, ((∃ r, o = .ok r) ∨ (∃ e, o = .err e)) ∧
+      ∀ n, (V.depth v + 1) * (2 * G + 2) + D ≤ n → run x n op env t v = o := by
+  have hnf := guarded_halts x henv hh hg _ op v (Nat.le_refl _)
+  refine ⟨run x ((V.depth v + 1) * (2 * G + 2) + D) op env t v,
+    Out.ok_or_err (C04_no_panic x _ op env t v henvwf hwf) hnf, fun n hn => ?_⟩
+  obtain ⟨k, rfl⟩ : ∃ k, n = (V.depth v + 1) * (2 * G + 2) + D + k := ⟨n - ((V.depth v + 1) * (2 * G + 2) + D), by omega⟩
+  exact run_mono x _ k op env t v _ rfl hnf
+
+/-- The shape the guard condition excludes does hang: Unserialize of ANY non-map Go value with
+    `scope{A{next: ref A}}` exhausts EVERY budget (the single-property shorthand wraps the value
+    into `A`, whose property is `A` again). -/
+theorem C04_selfLoop_hangs (x : Ext) (v : V) (hv : v.mapEntries? = none) (n : Nat) :
+    run x n .U [] selfLoop v = .fuel :=
+  selfLoop_fuel x hv n
+
+/-- ... and no bound `G` makes it guarded, no depth `d` makes it acyclic: the hypotheses of the two
+    termination theorems do exclude it. -/
+theorem C04_selfLoop_excluded (k : Nat) : ¬ Guard false [] selfLoop k ∧ ¬ FinDepth [] selfLoop k :=
+  ⟨selfLoop_not_guarded_closed k, selfLoop_not_fin k⟩
+
+/-! non-vacuity -/
+
+/-- an acyclic schema: a scope with two objects, one referring to the other (through a list and
+    through a one-of), defaults (a scalar and a list), a map of `any` -/
+def c04Acyclic : Ty :=
+  .scope
+    [("Root", .obj "Root"
+        [("items", .mk (.list (.ref "Item") (some 0) (some 3)) true [] [] [] none false),
+         ("choice", .mk (.oneOf false "kind" false [(.s "a", .ref "Item"), (.s "b", .obj "B" [])]) false [] [] [] none false),
+         ("n", .mk (.int (some 0) (some 10) none) false [] [] [] (some ⟨some (.float .f64 0), none⟩) false),
+         ("tags", .mk (.list (.str none none none) none none) false [] [] []
+            (some ⟨some (.list [.str "x", .str "y"]), none⟩) false),
+         ("m", .mk (.map (.str none none none) .any none none) false [] [] [] none false)]),
+     ("Item", .obj "Item" [("name", .mk (.str (some 1) none none) true [] [] [] none false)])]
+    "Root"
+
+example : FinDepth [] c04Acyclic 6 := finB_sound 10 [] c04Acyclic 6 (by decide)
+example : WF [] c04Acyclic := wfB_sound 10 [] c04Acyclic (by decide)
+
+/-- hence: 13 + depth of the value is enough, for every operation and every value -/
+example (x : Ext) (op : Op) (v : V) (n : Nat) (hn : 13 + V.depth v ≤ n) : run x n op [] c04Acyclic v ≠ .fuel :=
+  C04_terminates_acyclic x [] c04Acyclic 6 (finB_sound 10 [] c04Acyclic 6 (by decide)) op v n (by omega)
+
+/-- `c04Example` above is recursive (`Item.next : ref Item`), hence not acyclic, but guarded:
+    `Item` has two properties -/
+example : finB 10 [] c04Example = none := by decide
+example : Hered 2 1 [] c04Example ∧ Guard false [] c04Example 2 := guardedB_sound (k := 10) (by decide)
+
+example (x : Ext) (op : Op) (v : V) (n : Nat) (hn : (V.depth v + 1) * 6 + 1 ≤ n) : run x n op [] c04Example v ≠ .fuel :=
+  have h : Hered 2 1 [] c04Example ∧ Guard false [] c04Example 2 := guardedB_sound (k := 10) (by decide)
+  C04_terminates_guarded x 2 1 [] c04Example (envHered_nil 2 1) h.1 h.2 op v n (by omega)
+
+/-- recursion through single-property objects is fine as long as a list or a one-of is on the
+    cycle: a tree (`Tree{children: list(ref Tree)}`), an expression (`Expr{e: oneOf{neg: Expr, lit: Lit}}`) -/
+def c04Recursive : Ty :=
+  .scope
+    [("Tree", .obj "Tree" [("children", .mk (.list (.ref "Tree") none none) false [] [] [] none false)]),
+     ("Wrap", .obj "Wrap" [("tree", .mk (.ref "Tree") true [] [] [] none false)]),
+     ("Expr", .obj "Expr" [("e", .mk (.oneOf false "op" false [(.s "neg", .ref "Expr"), (.s "lit", .ref "Lit")]) true [] [] [] none false)]),
+     ("Lit", .obj "Lit" [("n", .mk (.int none none none) true [] [] [] (some ⟨some (.int .int64 0), none⟩) false)]),
+     ("Top", .obj "Top" [("w", .mk (.ref "Wrap") false [] [] [] none false), ("x", .mk (.ref "Expr") false [] [] [] none false)])]
+    "Top"
+
+example : WF [] c04Recursive := wfB_sound 10 [] c04Recursive (by decide)
+example : finB 20 [] c04Recursive = none := by decide
+example : Hered 4 1 [] c04Recursive ∧ Guard false [] c04Recursive 4 := guardedB_sound (k := 12) (by decide)
+
+/-- the known non-terminating shape: the checks reject it, and it does run out of fuel -/
+example : guardedB 100 100 50 selfLoop = false := by decide
+example : finB 50 [] selfLoop = none := by decide
+example : WF [] selfLoop := wfB_sound 10 [] selfLoop (by decide)
+example (x : Ext) : run x 50 .U [] selfLoop (.int .int64 5) = .fuel := C04_selfLoop_hangs x _ rfl 50
+
+/-- the same by evaluation, with externals that are never consulted -/
+def c04NoExt : Ext := ⟨fun _ => none, fun _ => "", fun _ => false, fun _ _ => false⟩
+example : (match run c04NoExt 50 .U [] selfLoop (.int .int64 5) with | .fuel => true | _ => false) = true := by decide
+
+end Arca
+
+#print axioms Arca.C04_terminates_acyclic
+#print axioms Arca.C04_total_acyclic
+#print axioms Arca.C04_terminates_guarded
+#print axioms Arca.C04_total_guarded
+#print axioms Arca.C04_selfLoop_hangs
+#print axioms Arca.C04_selfLoop_excluded
